@@ -55,6 +55,15 @@ def replay(ob, contract, seed=0):
     env = ob.entry_env
     if env is None:
         return dict(confirmed=None, text="no entry environment recorded for this obligation")
+    # only functions of plain data can be replayed: decide that before spending solver time on a model
+    def plain(v):
+        if isinstance(v, (JVal, Sym)) or v is None or isinstance(v, (bool, int, str, bytes)):
+            return True
+        if isinstance(v, tuple):
+            return all(plain(x) for x in v)
+        return False
+    if not all(plain(v) for k, v in env.items() if k not in ("self", "cls")):
+        return dict(confirmed=None, text="not a function of plain data (an argument is an object): no replay driver for it")
     assertions = list(ob.pc) + [tm.Not(ob.goal)]
     r = solve.z3_check(assertions, 20000, want_model=True, seed=seed, rlimit=3000000)
     if r.verdict != "sat" or r.model is None:
